@@ -346,6 +346,16 @@ func runC18(c *Ctx) {
 			c.undecided("R3", key, p.InstrPos(call), "pad count "+cnt+" is not computed from the rendering of the current argument")
 			continue
 		}
+		// the padding does not depend on the rendering's length beyond `shorter than the width`: an
+		// empty rendering is padded like any other
+		var lenTests []string
+		for k := range g {
+			if strings.HasPrefix(k, "len("+s+") ") && (strings.HasSuffix(k, " 0") || strings.HasSuffix(k, " 1")) {
+				lenTests = append(lenTests, k)
+			}
+		}
+		sort.Strings(lenTests)
+		c.check(len(lenTests) == 0, "R3", key+" any-length", p.InstrPos(call), "padded whatever the length of the rendering", "the padding is reached only under {"+strings.Join(lenTests, ", ")+"}: an empty rendering (an empty string argument) is written without its padding, so the column collapses")
 		left := cnt == "("+width+" - len("+s+"))"
 		right := cnt == "(-"+width+" - len("+s+"))"
 		switch {
